@@ -66,3 +66,38 @@ Proof.
   rewrite !bind_app, code_binomialGA. cbn [nth]. destruct (binomialGA x (nth (Z.to_nat w) pop []) CR ds1) as [[c ds2]|]; [|reflexivity].
   rewrite !bind_app, code_flip_mutation. destruct (flip_mutation c MR ds2) as [[mu ds3]|]; reflexivity.
 Qed.
+
+(* GeneticAlgorithm._get_new_individ_g (SelfCGA inherits it): the three pool entries (function + configured parameters) are
+   parameters of the generated definition; for whatever functions the pools hold, the offspring is: select `quantity` parents with
+   the selection's tournament size, cross over (population, scaled fitness, ranks of the selected), flip-mutate at the entry's rate
+   (divided by the string length unless the entry says the rate is constant) *)
+Lemma gatherR_gather {A} (m : list (list A)) idx : Forall (fun v => 0 <= v) idx -> gatherR m idx = gather [] m idx.
+Proof.
+  intro H. unfold gatherR, gather. apply map_ext_in. intros i Hi. rewrite Forall_forall in H.
+  unfold getR. now rewrite pyidx_nonneg by (apply H; exact Hi).
+Qed.
+Lemma gatherQz_gather (f : list Q) idx : Forall (fun v => 0 <= v) idx -> gatherQz f idx = gather 0%Q f idx.
+Proof.
+  intro H. unfold gatherQz, gather. apply map_ext_in. intros i Hi. rewrite Forall_forall in H.
+  now rewrite getQ_nonneg by (apply H; exact Hi).
+Qed.
+
+Theorem code_GA_get_new_individ_g
+    (selpy : list Q -> list Q -> Z -> Z -> M (list Z)) (sel : list Q -> list Q -> nat -> nat -> M (list Z)) (tour q : nat)
+    (cxpy cx : list (list Z) -> list Q -> list Q -> M (list Z)) (mupy : list Z -> Q -> M (list Z))
+    (proba : Q) (const : bool) fs fr pop ds :
+  selpy fs fr (Z.of_nat tour) (Z.of_nat q) ds = sel fs fr tour q ds ->
+  (forall r ds', sel fs fr tour q ds = Some (r, ds') -> Forall (fun v => 0 <= v) r) ->
+  (forall a b c ds', cxpy a b c ds' = cx a b c ds') ->
+  (forall c p ds', mupy c p ds' = flip_mutation c p ds') ->
+  py_GA_get_new_individ_g selpy (Z.of_nat tour) cxpy (Z.of_nat q) mupy proba const fs fr pop ds
+  = new_individ sel tour q cx proba const pop fs fr ds.
+Proof.
+  intros Hsel Hnn Hcx Hmu. unfold py_GA_get_new_individ_g, new_individ. unfold row in *. cbv zeta. rewrite !bind_app, Hsel.
+  destruct (sel fs fr tour q ds) as [[r ds1]|] eqn:E; [|reflexivity].
+  pose proof (Hnn r ds1 eq_refl) as Hr.
+  rewrite !bind_app, Hcx, (gatherR_gather pop r Hr), !(gatherQz_gather _ r Hr).
+  destruct (cx (gather [] pop r) (gather 0%Q fs r) (gather 0%Q fr r) ds1) as [[c ds2]|]; [|reflexivity].
+  rewrite !bind_app, Hmu. unfold mutation_rate, zlen, ZtoQ.
+  destruct const; destruct (flip_mutation c _ ds2) as [[o ds3]|]; reflexivity.
+Qed.
